@@ -67,6 +67,8 @@ def sigFinding : String → Option String
   | "cyclic-print" => some "D42"
   | "sdl-spin" => some "D01"
   | "inputfield-nil-type" => some "D60"
+  | "nil-schema-resolve" => some "D74"
+  | "nil-schema-extend" => some "D75"
   | _ => none
 
 /-- cases
